@@ -361,6 +361,11 @@ func worldAuthz(w *World) {
 			w.Check("C04.invalid-heartbeats-do-not-keep-alive")
 			w.Probe("authz.invalid_heartbeats")
 			c := newAdv(token) // knows the token for login (e.g. an old digest), then sends bad keys
+			if r.Intn(2) == 0 {
+				// ... and declares itself exempt in its (valid) login: nothing a remote peer says exempts it
+				c.LoginExtra = M{"client_spec": M{"always_auth_pass": true, "type": r.PickStr("", "ssh-tunnel")}}
+				w.Probe("authz.valid_login_claims_exemption")
+			}
 			if rr, err := c.login(""); err != nil || mstr(rr, "error") != "" {
 				continue
 			}
@@ -407,6 +412,33 @@ func worldAuthz(w *World) {
 			if env.frpsTCPPorts()[20003] {
 				viol("heartbeat", "port-not-released", "port of the timed-out session is still bound")
 			}
+		case 7: // a session of its own, logged in with a valid key and a claim of exemption, then key-less work connections
+			if !scopeWC {
+				continue
+			}
+			w.Check("C04.workconn-refused")
+			w.Probe("authz.valid_login_claims_exemption")
+			c := newAdv(token)
+			c.WorkMode = wmNever
+			if r.Intn(4) > 0 {
+				c.LoginExtra = M{"client_spec": M{"always_auth_pass": true, "type": r.PickStr("", "ssh-tunnel")}}
+			}
+			if rr, err := c.login(""); err != nil || mstr(rr, "error") != "" {
+				continue
+			}
+			conn, err := c.OfferWorkConn(c.RunID, r.Intn(2) == 0, "wrong")
+			if err == nil {
+				st, err := AwaitStart(conn, 3*time.Second)
+				if err == nil && mstr(st, "error") == "" {
+					viol("workconn", "bad-key-accepted", "work connection with an invalid key for the peer's own session was started: %v", st)
+				} else if err != nil {
+					if ne, ok := err.(net.Error); ok && ne.Timeout() {
+						viol("workconn", "bad-key-parked", "NewWorkConns scope on: a work connection with an invalid key, naming the session of the peer that sent it (login fields %v), was neither refused nor closed (pooled?)", c.LoginExtra)
+					}
+				}
+				conn.Close()
+			}
+			c.Drop()
 		case 6: // flood of refused attempts
 			w.Probe("authz.flood")
 			n := r.Range(20, 120)
